@@ -1034,6 +1034,15 @@ class TypeWorld:
                      "core.records.fromarrays", "lib.stride_tricks.sliding_window_view"):
                 return ND
             return UNKNOWN
+        if dotted.startswith("operator.") or dotted.startswith("_operator."):
+            # operator.ge(a, b) is a >= b: element-wise on a Series / array operand, a scalar otherwise
+            n = dotted.split(".", 1)[1]
+            for k in argk[:2]:
+                if k[0] in ("series", "nd", "df"):
+                    return k
+            if n in ("ge", "gt", "le", "lt", "eq", "ne", "not_", "truth", "contains", "is_", "is_not"):
+                return BOOL if all(k[0] != "unknown" for k in argk[:2]) else UNKNOWN
+            return UNKNOWN
         if dotted == "fractions.Fraction":
             return ("frac",)
         if dotted in ("functools.reduce",):
